@@ -38,7 +38,7 @@ class C03Spec(ModelSpec):
 
 def main(tier):
     rep = common.Report("C03", tier, "model_checking")
-    run_spec(rep, C03Spec(tier), "closure", time_cap=240 if tier == "quick" else 3000)
+    run_spec(rep, C03Spec(tier), "closure", time_cap=120 if tier == "quick" else 3000)
     rep.assumptions += ["alphabet: pids p/q, contents A/B, cids cA/cB/never-stored; rejected and accepted forms",
                         "every transition runs the real method on a fresh FileHashStore over the materialised tree"]
     return rep.finish(rep._samples)
